@@ -6,6 +6,7 @@ pub mod exec;
 pub mod exec_range;
 pub mod exec_clone;
 pub mod exec_misc;
+pub mod exec_cap;
 pub mod exec_handles;
 pub mod galloc;
 pub mod mcmodel;
@@ -42,14 +43,17 @@ pub fn groups_for(prop: Prop) -> &'static [&'static str] {
         Prop::C11 => &["fixed", "grid"],
         Prop::C19 => &["noalloc"],
         Prop::C12 => &["general", "fixed", "align"],
-        Prop::C10 | Prop::C18 | Prop::C17 => &["general"],
+        Prop::C10 | Prop::C17 => &["general"],
+        Prop::C18 => &["general"],
         _ => &["general", "fixed"],
     }
 }
 
 fn configs_for(prop: Prop, tier: Tier) -> Vec<Arc<dyn Runner>> {
     let f = ALL.with(|a| a.borrow().expect("main_with not called"));
-    f().into_iter().filter(|e| (tier == Tier::Thorough || e.quick) && groups_for(prop).contains(&e.group)).map(|e| Arc::from(e.r)).collect()
+    f().into_iter().filter(|e| (tier == Tier::Thorough || e.quick) && groups_for(prop).contains(&e.group))
+        .filter(|e| prop != Prop::C18 || e.r.backend() == crate::caps::BK::Heap)
+        .map(|e| Arc::from(e.r)).collect()
 }
 
 fn load_known(path: Option<String>) -> HashSet<String> {
@@ -147,6 +151,28 @@ pub fn main_with(all: fn() -> Vec<Entry>) {
             }
             let out = serde_json::to_string(&json!({"results": results})).unwrap();
             match arg(&args, "--out") { Some(p) => std::fs::write(p, out).unwrap(), None => println!("{out}") }
+        }
+        "sweep-list" => {
+            // one line per case: config|len|call|arg
+            let prop = prop.expect("--prop");
+            for r in configs_for(prop, tier) {
+                if !r.resizable() { continue; }
+                for len in 0..=2usize { for call in 0..4u8 { for a in r.sweep_args(len) { println!("{}|{}|{}|{}", r.name(), len, call, a); } } }
+            }
+        }
+        "sweep" => {
+            quiet_panics();
+            let prop = prop.expect("--prop");
+            let cfg = arg(&args, "--config").expect("--config");
+            let len: usize = arg(&args, "--len").unwrap().parse().unwrap();
+            let call: u8 = arg(&args, "--call").unwrap().parse().unwrap();
+            let a: usize = arg(&args, "--arg").unwrap().parse().unwrap();
+            for r in configs_for(prop, Tier::Thorough) {
+                if r.name() != cfg { continue; }
+                println!("{}", r.sweep(len, call, a));
+                return;
+            }
+            println!("MACHINERY config not found");
         }
         "replay" => {
             quiet_panics();
